@@ -53,6 +53,9 @@ def _exceptions() -> dict[str, Any]:
         "OSError": lambda: OSError(5, "io"),
         "StreamProtocolParseError": lambda: StreamProtocolParseError(DeserializeError("bad"), b""),
         "ExceptionGroup(ConnectionError)": lambda: ExceptionGroup("grp", [ConnectionAbortedError(103, "aborted")]),
+        # groups that mix an "expected" member (closed client / lost connection) with an ordinary failure
+        "ExceptionGroup(ClientClosedError+ValueError)": lambda: ExceptionGroup("grp", [ClientClosedError("closed client"), ValueError("v")]),
+        "ExceptionGroup(ConnectionError+KeyError)": lambda: ExceptionGroup("grp", [ConnectionResetError(104, "reset"), KeyError("k")]),
     }
 
 
